@@ -1604,7 +1604,7 @@ func (w *walker) uninterpreted(s *state, fr *frame, instr ssa.CallInstruction, a
 				written = true
 			}
 		}
-		if written && i == 0 && (c.Op == "zero" || c.Op == "zeros" || !readsRecv || PureDest[name]) {
+		if written && i == 0 && (c.Op == "zero" || c.Op == "zeros" || !readsRecv || PureDest[name] || (strings.HasPrefix(name, "Element.") && !RecvInput[name] && len(all) >= 2)) {
 			continue // pure destination: fresh object, or a callee that never reads its receiver
 		}
 		if written && i == 0 && a.Op == "ref" && len(c.Args) == 0 && c.String() == defaultContent(a.Loc).String() && !RecvInput[name] {
